@@ -21,6 +21,7 @@ type GenesisLine struct {
 	Kind  string                 `json:"kind"`
 	Cfg   map[string]interface{} `json:"cfg"`
 	Names map[string]string      `json:"names"`
+	Raw   Config                 `json:"rawcfg"`
 	Post  State                  `json:"post"`
 }
 
@@ -45,7 +46,7 @@ func (t *TraceWriter) Genesis(c *Chain) error {
 	for k, v := range c.concr {
 		names[k] = v
 	}
-	b, err := json.Marshal(GenesisLine{Kind: "genesis", Cfg: c.SpecConfig(), Names: names, Post: c.Project()})
+	b, err := json.Marshal(GenesisLine{Kind: "genesis", Cfg: c.SpecConfig(), Names: names, Raw: c.Cfg, Post: c.Project()})
 	if err != nil {
 		return err
 	}
